@@ -54,6 +54,21 @@ func registerMoreIntrinsics() {
 		// a harness-supplied Source: the real math/rand code runs on it
 		return notHandled
 	}
+	// at most RANDDRAWS (default 8) draws from one generator on a path: longer rejection loops are outside the
+	// bound (the path is dropped, the bound is reported)
+	draw := func(e *Engine, st *RandState) {
+		max := int64(8)
+		if v, ok := e.cfg.Params["RANDDRAWS"]; ok {
+			max = v
+		}
+		e.x.mu.Lock()
+		e.x.bounds["rand.draws.per.generator"] = max
+		e.x.mu.Unlock()
+		if int64(st.calls) >= max {
+			panic(pathEnd{kind: "assume", msg: "more draws from one generator than the bound"})
+		}
+		st.calls++
+	}
 	randState := func(e *Engine, v Value) *RandState {
 		p, ok := v.(*Value)
 		if !ok || p == nil {
@@ -74,7 +89,7 @@ func registerMoreIntrinsics() {
 		if e.decide(e.tt.SLe(n, e.tt.IntConst(0, 64))) {
 			panic(targetPanic{msg: "invalid argument to Intn"})
 		}
-		st.calls++
+		draw(e, st)
 		r := e.tt.App("rand.Intn", BVSort(64), st.seed, e.tt.IntConst(int64(st.calls), 64), n)
 		e.assume(e.tt.And(e.tt.SLe(e.tt.IntConst(0, 64), r), e.tt.SLt(r, n)))
 		e.randLog = append(e.randLog, randCall{st.id, "Intn", n, r})
@@ -85,7 +100,7 @@ func registerMoreIntrinsics() {
 		if st == nil {
 			return notHandled
 		}
-		st.calls++
+		draw(e, st)
 		r := e.tt.App("rand.Float64", F64Sort, st.seed, e.tt.IntConst(int64(st.calls), 64))
 		e.assume(e.tt.And(e.tt.FLe(e.tt.F64Const(0), r), e.tt.FLt(r, e.tt.F64Const(1))))
 		e.randLog = append(e.randLog, randCall{st.id, "Float64", nil, r})
@@ -96,7 +111,7 @@ func registerMoreIntrinsics() {
 		if st == nil {
 			return notHandled
 		}
-		st.calls++
+		draw(e, st)
 		r := e.tt.App("rand.Int63", BVSort(64), st.seed, e.tt.IntConst(int64(st.calls), 64))
 		e.assume(e.tt.SLe(e.tt.IntConst(0, 64), r))
 		return r
@@ -114,7 +129,7 @@ func registerMoreIntrinsics() {
 			if e.decide(e.tt.SLe(n, e.tt.IntConst(0, w))) {
 				panic(targetPanic{msg: "invalid argument to " + method})
 			}
-			st.calls++
+			draw(e, st)
 			r := e.tt.App("rand."+method, BVSort(w), st.seed, e.tt.IntConst(int64(st.calls), 64), n)
 			e.assume(e.tt.And(e.tt.SLe(e.tt.IntConst(0, w), r), e.tt.SLt(r, n)))
 			return r
@@ -128,7 +143,7 @@ func registerMoreIntrinsics() {
 			if st == nil {
 				return notHandled
 			}
-			st.calls++
+			draw(e, st)
 			r := e.tt.App("rand."+method, BVSort(w), st.seed, e.tt.IntConst(int64(st.calls), 64))
 			e.assume(e.tt.SLe(e.tt.IntConst(0, w), r))
 			return r
